@@ -92,11 +92,11 @@ theorem wazevo_deep_unwind_witness : ¬ WellBracketed (events wazevoAsIs allOn d
 theorem overflow_no_abort_witness : ¬ WellBracketed (events wazevoAsIs allOn overflow5) := by decide
 /-- F22b: the interpreter announces the call that overflows (Before) although it never gets a frame. -/
 theorem interp_overflow_witness : ¬ WellBracketed (events interpAsIs allOn overflow5) := by decide
-/-- F24: interpreter, in-place tail call: the callee gets no events at all (here the stream stays
+/-- F31: interpreter, in-place tail call: the callee gets no events at all (here the stream stays
 bracketed but the call of f2 is invisible) ... -/
 theorem interp_tail_witness :
     events interpAsIs allOn tail12 = [.before 1 [] [1], .after 1 [10]] := by decide
-/-- F25: compiler, tail call as a jump: the caller is never closed. -/
+/-- F32: compiler, tail call as a jump: the caller is never closed. -/
 theorem wazevo_tail_witness : ¬ WellBracketed (events wazevoAsIs allOn tail12) := by decide
 /-- F30: the compiler's stack iterator lists 29 of the 31 frames at the innermost `Before`. -/
 theorem wazevo_stack_truncated_witness :
